@@ -353,4 +353,89 @@ func execCycleProbe(c *FSCase, st *Stats) (*Violation, interface{}, bool) {
 	return nil, nil, true
 }
 
+// ---------------------------------------------------------------------------
+// nestprobe: source texts that nest (or chain) n levels deep. The parser is
+// recursive descent and the evaluator walks the tree recursively, neither
+// counts towards SetStackDepthLimit, so a large enough n exhausts the Go stack:
+// a fatal error no recover() can stop. Run in a child process.
+
+var nestKinds = []string{"paren", "array", "block", "unary", "fn", "plus", "member", "call", "object", "ternary", "if"}
+
+// kinds whose 4,000,000-level form stays within a few GB of memory and a few
+// seconds (a member chain of that length is quadratic in ast.DotExpression.Idx0:
+// hours; object/call/ternary/if nesting needs tens of GB): those are tried at
+// the survivable depth only
+var nestDeadly = []string{"paren", "array", "block", "unary", "fn", "plus"}
+
+func nestSource(kind string, n int) string {
+	switch kind {
+	case "paren":
+		return strings.Repeat("(", n) + "1" + strings.Repeat(")", n)
+	case "array":
+		return strings.Repeat("[", n) + strings.Repeat("]", n)
+	case "block":
+		return strings.Repeat("{", n) + strings.Repeat("}", n)
+	case "unary":
+		return "x=" + strings.Repeat("!", n) + "1"
+	case "fn":
+		return strings.Repeat("function f(){", n) + strings.Repeat("}", n)
+	case "plus":
+		return "x=1" + strings.Repeat("+1", n)
+	case "member":
+		return "var o={};o.a=o;x=o" + strings.Repeat(".a", n)
+	case "call":
+		return "function g(){return g};x=g" + strings.Repeat("()", n)
+	case "object":
+		return "x=" + strings.Repeat("{a:", n) + "1" + strings.Repeat("}", n)
+	case "ternary":
+		return "x=" + strings.Repeat("1?", n) + "2" + strings.Repeat(":3", n)
+	case "if":
+		return strings.Repeat("if(0)", n) + ";"
+	}
+	return ""
+}
+
+func execNestProbe(c *FSCase, st *Stats) (*Violation, interface{}, bool) {
+	key := "deep-nesting " + c.Recv + " " + strconv.Itoa(c.K)
+	if !singleCaseProcess {
+		os.Setenv("VERIF_RLIMIT_MB", "6000")
+		os.Setenv("VERIF_CHILD_TIMEOUT_S", "120")
+		v, rc, ok := isolatedExec(fsEngine{}, c, st)
+		os.Unsetenv("VERIF_RLIMIT_MB")
+		os.Unsetenv("VERIF_CHILD_TIMEOUT_S")
+		if v != nil {
+			v.Key = key
+			if v.Class == "process_crash" || v.Class == "go_stack_exhausted" {
+				v.Class = "process_killed_by_deep_nesting"
+			}
+			if kf := isKnown(v); kf != nil {
+				st.Known[kf.Property+" "+kf.Key]++
+				return nil, nil, true
+			}
+		}
+		return v, rc, ok
+	}
+	applyRlimit()
+	st.Fault("deeply_nested_source")
+	st.NonTrivial++
+	st.Sig(hashStr("nest", c.Recv, strconv.Itoa(c.K)))
+	src := nestSource(c.Recv, c.K)
+	r := newFSRuntime()
+	r.vm.SetStackDepthLimit(100)
+	st.Runs++
+	_, _, panicked, pv := protectedRun(r.vm, src)
+	if panicked {
+		x := viol("C02", "go_panic_escaped", "%s nested %d deep (%d bytes of source): Run panicked with %T: %v", c.Recv, c.K, len(src), pv, clip(fmt.Sprint(pv)))
+		x.Key = key
+		return x, c, true
+	}
+	fv, ferr, fp, fpv := protectedRun(r.vm, "(function(a){return a+1})(1)")
+	if fp || ferr != nil || valStr(fv) != "2" {
+		x := viol("C02", "runtime_unusable_afterwards", "%s nested %d deep: follow-up script gave value=%s err=%v panic=%v", c.Recv, c.K, valStr(fv), ferr, fpv)
+		x.Key = key
+		return x, c, true
+	}
+	return nil, nil, true
+}
+
 var _ = otto.New
